@@ -143,7 +143,7 @@ def need {α} (o : Option α) (msg : String) : Except String α := match o with 
 def handle (d : D) (tau : Nat) (op : String) (args : List Nat) : Except String D := do
   match op, args with
   | "lock", [k] =>
-    let d := { d.bind tau with keys := insSorted k d.keys }
+    let d := { d with keys := insSorted k d.keys }
     let (d, t) ← (match d.task tau with
       | some (t, T) =>
         (match T.frames with
@@ -157,7 +157,7 @@ def handle (d : D) (tau : Nat) (op : String) (args : List Nat) : Except String D
       | none => need (d.spawn tau k none) "spawn not enabled")
     need (d.fire (.lock t)) s!"lock {k} not enabled (entry present or frame not at the loop head)"
   | "bplock", [k] =>
-    let d := { d.bind tau with keys := insSorted k d.keys }
+    let d := { d with keys := insSorted k d.keys }
     let (d, t) ← (match d.task tau with
       | some (t, T) =>
         (match T.frames with
@@ -194,7 +194,6 @@ def handle (d : D) (tau : Nat) (op : String) (args : List Nat) : Except String D
         | [] => throw "defuse from a session task")
      | none => throw "defuse from an unknown task")
   | "genter", [] =>
-    let d := d.bind tau
     (match d.task tau with
      | some (t, T) =>
        if T.pc = .locked ∨ T.pc = .bpUp then need (d.fire (.gEnter t)) "gEnter not enabled"
